@@ -3467,6 +3467,7 @@ func producerName(v ssa.Value) string {
 
 // round8 runs the round-8 rules of a property (own and shared) after the property's older rules.
 func round8(c *Ctx, r *Report, prop string) {
+	defer round9(c, r, prop)
 	switch prop {
 	case "C01":
 		c01r13(c, r)
